@@ -171,6 +171,6 @@ var vhScenarios = map[string]func(map[string]string) bool{
 }
 
 var vhRegistry = map[string]func(){"vh_C12_eval": vh_C12_eval, "vh_C12_execute": vh_C12_execute,
-	"vh_C12_binary": vh_C12_binary, "vh_C12_unary": vh_C12_unary, "vh_C12_assign": vh_C12_assign, "vh_C12_binconst": vh_C12_binconst, "vh_C12_assignconst": vh_C12_assignconst}
+	"vh_C12_binary": vh_C12_binary, "vh_C12_unary": vh_C12_unary, "vh_C12_assign": vh_C12_assign, "vh_C12_binconst": vh_C12_binconst, "vh_C12_assignconst": vh_C12_assignconst, "vh_C12_cfg": vh_C12_cfg, "vh_C12_cfg_assert": vh_C12_cfg_assert}
 
 var vhIntVars = map[string]*int{"vhMaxSteps": &vhMaxSteps, "vhRuleOp": &vhRuleOp, "vhConstKind": &vhConstKind, "vhConstLeft": &vhConstLeft, "vhConstBits": &vhConstBits}
